@@ -306,9 +306,10 @@ def indexOf (l : List Char) (d : Char) : Except ErrKind Nat :=
 
 def flipSign (b : Bool) : Rat := if b then -1 else 1
 
-/-- `_transform_affine_to_convention` (only the reference side is used by the code: flip the rows
-whose letter is absent from the target, then permute the rows). -/
-def transformToConvention (a : Aff) (fromC toC : List Char) : Except ErrKind Aff := do
+/-- the decision part of `_transform_affine_to_convention`: `flip_reference` (one flag per SOURCE
+axis: its letter is absent from the target) and `permute_reference` (for each TARGET letter the source
+axis carrying it or its opposite). -/
+def conventionPlan (fromC toC : List Char) : Except ErrKind (List Bool × List Nat) := do
   let f ← normOrientation fromC
   let t ← normOrientation toC
   let flips := f.map (fun d => !t.contains d)
@@ -317,14 +318,23 @@ def transformToConvention (a : Aff) (fromC toC : List Char) : Except ErrKind Aff
     else do
       let d' ← opposite d
       indexOf f d')
+  pure (flips, perm)
+
+/-- the arithmetic part (`_transform_affine_matrix` with `flip_reference`, `permute_reference`): negate
+the flagged rows of the 3×4 matrix (translation included), then take the rows in the permuted order. -/
+def applyPlan (a : Aff) (flips : List Bool) (perm : List Nat) : Except ErrKind Aff :=
   match flips, perm with
   | [f0, f1, f2], [p0, p1, p2] =>
-    -- rows of the flipped 3×4 matrix
     let fl := fun (i : Nat) => flipSign (match i with | 0 => f0 | 1 => f1 | _ => f2)
     let rowOf := fun (i : Nat) => V3.smul (fl i) (a.m.row i)
     let tOf := fun (i : Nat) => fl i * a.t.get i
     pure ⟨M3.ofRows (rowOf p0) (rowOf p1) (rowOf p2), ⟨tOf p0, tOf p1, tOf p2⟩⟩
   | _, _ => .error .value
+
+/-- `_transform_affine_to_convention` -/
+def transformToConvention (a : Aff) (fromC toC : List Char) : Except ErrKind Aff := do
+  let (flips, perm) ← conventionPlan fromC toC
+  applyPlan a flips perm
 
 /-! ## affine from components -/
 
